@@ -55,6 +55,19 @@ theorem RescObj.build_consistent (t : Tables α) (o : RescObj α) (h : RescObj.b
     subst this
     exact ⟨⟨rescCompute_some t [] fw hc, by simp, by simp, by simp⟩, rfl, rfl⟩
 
+theorem RescObj.refreshBack_spec (o : RescObj α) (hc : o.Consistent) :
+    o.refreshBack.Consistent ∧ o.refreshBack.tab = o.tab ∧ o.refreshBack.bps = o.bps
+      ∧ posteriorOf o.refreshBack.fw.lik o.refreshBack.back = rescPosterior o.tab.p o.tab.e0 o.tab.es o.bps := by
+  obtain ⟨h1, h2, h3, h4⟩ := hc
+  unfold RescObj.refreshBack
+  by_cases hb : o.backUpToDate = true
+  · simp only [hb, if_true]
+    refine ⟨⟨h1, h2, h3, h4⟩, (by first | rfl | trivial), (by first | rfl | trivial), ?_⟩
+    rw [h2 hb, h1]; rfl
+  · simp only [hb, if_false, Bool.false_eq_true]
+    refine ⟨⟨h1, fun _ => rfl, h3, h4⟩, (by first | rfl | trivial), (by first | rfl | trivial), ?_⟩
+    simp only [rescPosterior]; rw [h1]
+
 theorem RescObj.step_spec (o : RescObj α) (hc : o.Consistent) (op : Op α)
     (hne : (o.step op).2 ≠ .exc) (hvar : op ≠ .d1 "" ∧ op ≠ .d2 "") :
     (o.step op).1.Consistent ∧ (o.step op).1.tab = nextTab o.tab op ∧ (o.step op).1.bps = nextBps o.bps op
@@ -89,6 +102,22 @@ theorem RescObj.step_spec (o : RescObj α) (hc : o.Consistent) (op : Op α)
     · simp only [hb, if_false, Bool.false_eq_true]
       refine ⟨⟨h1, fun _ => rfl, h3, h4⟩, (by first | rfl | trivial), (by first | rfl | trivial), ?_⟩
       simp only [rescPosterior]; rw [h1]
+  | posteriorInto buf append =>
+    obtain ⟨r1, r2, r3, r4⟩ := RescObj.refreshBack_spec o ⟨h1, h2, h3, h4⟩
+    simp only [RescObj.step, nextTab, nextBps, rescSpec]
+    exact ⟨r1, r2, r3, by rw [r4]⟩
+  | posteriorSite site =>
+    obtain ⟨r1, r2, r3, r4⟩ := RescObj.refreshBack_spec o ⟨h1, h2, h3, h4⟩
+    simp only [RescObj.step, nextTab, nextBps, rescSpec]
+    exact ⟨r1, r2, r3, by rw [r4]⟩
+  | siteLik site =>
+    obtain ⟨r1, r2, r3, r4⟩ := RescObj.refreshBack_spec o ⟨h1, h2, h3, h4⟩
+    simp only [RescObj.step, nextTab, nextBps, rescSpec]
+    exact ⟨r1, r2, r3, by rw [r4]⟩
+  | siteLiks =>
+    obtain ⟨r1, r2, r3, r4⟩ := RescObj.refreshBack_spec o ⟨h1, h2, h3, h4⟩
+    simp only [RescObj.step, nextTab, nextBps, rescSpec]
+    exact ⟨r1, r2, r3, by rw [r4]⟩
   | d1 var =>
     have hv : var ≠ "" := fun h => hvar.1 (by rw [h])
     simp only [RescObj.step, nextTab, nextBps, rescSpec]
@@ -151,6 +180,17 @@ def LogObj.Consistent (o : LogObj α) : Prop :=
 theorem LogObj.build_consistent (t : Tables α) : (LogObj.build t).Consistent ∧ (LogObj.build t).tab = t ∧ (LogObj.build t).bps = [] :=
   ⟨⟨rfl, by simp [LogObj.build]⟩, rfl, rfl⟩
 
+theorem LogObj.refreshBack_spec (o : LogObj α) (hc : o.Consistent) :
+    o.refreshBack.Consistent ∧ o.refreshBack.tab = o.tab ∧ o.refreshBack.bps = o.bps
+      ∧ o.refreshBack.fw = logCompute o.tab o.bps ∧ o.refreshBack.back = logBackward o.tab.p o.tab.es o.bps := by
+  obtain ⟨h1, h2⟩ := hc
+  unfold LogObj.refreshBack
+  by_cases hb : o.backUpToDate = true
+  · simp only [hb, if_true]
+    exact ⟨⟨h1, h2⟩, (by first | rfl | trivial), (by first | rfl | trivial), h1, h2 hb⟩
+  · simp only [hb, if_false, Bool.false_eq_true]
+    exact ⟨⟨h1, fun _ => rfl⟩, (by first | rfl | trivial), (by first | rfl | trivial), h1, (by first | rfl | trivial)⟩
+
 theorem LogObj.step_spec (o : LogObj α) (hc : o.Consistent) (op : Op α) :
     (o.step op).1.Consistent ∧ (o.step op).1.tab = nextTab o.tab op ∧ (o.step op).1.bps = nextBps o.bps op
       ∧ (o.step op).2 = logSpec (nextTab o.tab op) (nextBps o.bps op) op := by
@@ -168,6 +208,22 @@ theorem LogObj.step_spec (o : LogObj α) (hc : o.Consistent) (op : Op α) :
     · simp only [hb, if_false, Bool.false_eq_true]
       refine ⟨⟨h1, fun _ => rfl⟩, (by first | rfl | trivial), (by first | rfl | trivial), ?_⟩
       rw [h1]
+  | posteriorInto buf append =>
+    obtain ⟨r1, r2, r3, r4, r5⟩ := LogObj.refreshBack_spec o ⟨h1, h2⟩
+    simp only [LogObj.step, nextTab, nextBps, logSpec, logPosterior]
+    exact ⟨r1, r2, r3, by rw [r4, r5, r3]⟩
+  | posteriorSite site =>
+    obtain ⟨r1, r2, r3, r4, r5⟩ := LogObj.refreshBack_spec o ⟨h1, h2⟩
+    simp only [LogObj.step, nextTab, nextBps, logSpec, logPosteriorSite]
+    exact ⟨r1, r2, r3, by rw [r4, r5, r3]⟩
+  | siteLik site =>
+    obtain ⟨r1, r2, r3, r4, r5⟩ := LogObj.refreshBack_spec o ⟨h1, h2⟩
+    simp only [LogObj.step, nextTab, nextBps, logSpec, logPosteriorSite]
+    exact ⟨r1, r2, r3, by rw [r4, r5, r3]⟩
+  | siteLiks =>
+    obtain ⟨r1, r2, r3, r4, r5⟩ := LogObj.refreshBack_spec o ⟨h1, h2⟩
+    simp only [LogObj.step, nextTab, nextBps, logSpec, logPosterior]
+    exact ⟨r1, r2, r3, by rw [r4, r5, r3]⟩
   | d1 var => exact ⟨⟨h1, h2⟩, (by first | rfl | trivial), (by first | rfl | trivial), rfl⟩
   | d2 var => exact ⟨⟨h1, h2⟩, (by first | rfl | trivial), (by first | rfl | trivial), rfl⟩
 
@@ -185,10 +241,6 @@ theorem LogObj.run_spec (o : LogObj α) (hc : o.Consistent) (ops : List (Op α))
 def LowObj.run (o : LowObj α) : List (Op α) → List (Ans α)
   | [] => []
   | op :: ops => (o.step op).2 :: LowObj.run (o.step op).1 ops
-
-def lowSpec (t : Tables α) (maxSize : Nat) (bps : List Nat) : Op α → Ans α
-  | .posterior | .d1 _ | .d2 _ => .exc
-  | _ => .val (lowCompute t maxSize bps)
 
 def lowSpecRun (t : Tables α) (maxSize : Nat) (bps : List Nat) : List (Op α) → List (Ans α)
   | [] => []
@@ -211,6 +263,10 @@ theorem LowObj.run_spec (o : LowObj α) (hc : o.logLik = lowCompute o.tab o.maxS
       rw [ih (o.step .logLik).1 hc hd0 hd20 hrest hvar']
       simp only [LowObj.step, lowSpec, nextTab, nextBps]; rw [hc]
     | posterior => exact absurd rfl h0
+    | posteriorInto _ _ => exact absurd rfl h0
+    | posteriorSite _ => exact absurd rfl h0
+    | siteLik _ => exact absurd rfl h0
+    | siteLiks => exact absurd rfl h0
     | d1 var =>
       -- a `d1` with a non-empty name raises (the name is stored, then NotImplementedException)
       have hv : var ≠ "" := fun h => (hvar (.d1 var) (by simp)).1 (by rw [h])
